@@ -7,7 +7,7 @@
    Values are compared with relative tolerance 1e-9 (absolute floor 1e-12). *)
 From Coq Require Import String.
 From Coq Require Import QArith ZArith List Bool.
-From OG Require Import C18.Model C18.Model2.
+From OG Require Import C18.Model C18.Model2 C18.Model3.
 Import ListNotations.
 Open Scope Q_scope.
 
@@ -186,3 +186,22 @@ Definition check_bcase (c : bcase) : N :=
   ((if Bool.eqb s up then 0 else 1) + (if Bool.eqb i sv then 0 else 2))%N.
 
 Definition bmismatches := mism_from check_bcase 0.
+
+(* binary operator cases. vector-scalar: operator, bool modifier, scalar on the left?, scalar, operand vector (upstream's
+   evaluation of the operand), both engines' answers. vector-vector (one-to-one): operator, bool, on?, labels, both
+   operand vectors, both answers. *)
+Definition vscase := (binop * bool * bool * Q * list elem * list elem * list elem)%type.
+Definition check_vscase (c : vscase) : N :=
+  let '(op, rb, swap, s, vin, up, sv) := c in
+  let m := vs_binop op rb swap s vin in
+  ((if vec_agree m up then 0 else 1) + (if vec_agree m sv then 0 else 2))%N.
+Definition vsmismatches := mism_from check_vscase 0.
+
+Definition vvcase := (binop * bool * bool * list string * list elem * list elem * list elem * list elem)%type.
+Definition check_vvcase (c : vvcase) : N :=
+  let '(op, rb, on, ls, lhs, rhs, up, sv) := c in
+  match vv_binop op rb {| vm_on := on; vm_labels := ls |} lhs rhs with
+  | Some m => ((if vec_agree m up then 0 else 1) + (if vec_agree m sv then 0 else 2))%N
+  | None => 3%N     (* the model reports a many-to-many error although upstream answered *)
+  end.
+Definition vvmismatches := mism_from check_vvcase 0.
